@@ -10,6 +10,7 @@ mod lpfmt;
 mod props;
 mod rat;
 mod runner;
+mod solve;
 
 use runner::*;
 
@@ -17,6 +18,10 @@ fn drivers() -> Vec<Box<dyn Driver>> {
     vec![
         Box::new(props::c01::C01),
         Box::new(props::c01::C02),
+        Box::new(props::c04::C04),
+        Box::new(props::c04::C05),
+        Box::new(props::c13::C13),
+        Box::new(props::c14::C14),
         Box::new(props::c17::C17),
     ]
 }
